@@ -430,6 +430,24 @@ def _closures(ctx):
                   'BuildOptimiser::seed does not store exactly Some(argument) and return the same builder')
 
 
+def _index_shifted(v, want):
+    """v is the replica index, or the index shifted by a value that is the same for every replica (`index.wrapping_add(offset)`,
+    `index ^ salt`, `index + base`): distinct indices still get distinct seeds and the seed is a function of (index, arguments)."""
+    if v == want:
+        return True
+
+    def invariant(x):
+        r = repr(x)
+        return 'item' not in r and "'unk'" not in r and 'Iterator::next' not in r
+    if isinstance(v, tuple) and v[0] == 'app' and v[1].rsplit('::', 1)[-1] in ('wrapping_add', 'wrapping_sub') and len(v[2]) == 2:
+        a, b2 = v[2]
+        return (a == want and invariant(b2)) or (b2 == want and invariant(a) and v[1].endswith('wrapping_add'))
+    if isinstance(v, tuple) and v[0] == 'bin' and v[1] in ('Add', 'BitXor', 'Sub', 'AddWithOverflow'):
+        a, b2 = v[2], v[3]
+        return (a == want and invariant(b2)) or (b2 == want and invariant(a) and v[1] != 'Sub')
+    return False
+
+
 def _seed_by_value(n, lp, sbi):
     """One iteration of the replica loop is executed up to the stage call at block sbi (the builder's setters are executed,
     build() is opaque): on every path the optimiser argument is build(b) with b.seed = Some(item of the replica loop)."""
@@ -449,7 +467,8 @@ def _seed_by_value(n, lp, sbi):
             return False, 'optimiser is not the result of build()'
         bv = v[2][0]
         sd = sfield(bv, 'seed') if isinstance(bv, tuple) and bv[0] == 'struct' else None
-        if not (isinstance(sd, tuple) and sd[0] == 'struct' and sd[2] and sd[2][0] == 'Some' and sfield(sd, '0') == want):
+        if not (isinstance(sd, tuple) and sd[0] == 'struct' and sd[2] and sd[2][0] == 'Some' and
+                _index_shifted(sfield(sd, '0'), want)):
             return False, 'builder.seed is %s' % (repr(sd)[:60],)
     return True, '%d path(s)' % len(hits)
 
